@@ -19,13 +19,25 @@ static std::map<std::string, uint64_t> COVER_COUNTS, FORK_SITES;
 struct Sample { std::vector<std::pair<std::string, std::string>> inputs, notes; };
 static std::vector<Sample> SAMPLES;
 
-static Val get(State &s, const Value *v)
+static Val get_raw(State &s, const Value *v)
 {
   if (auto *c = dyn_cast<Constant>(v)) return const_val(c);
   Frame &f = s.stack.back();
   auto it = f.fi->idx.find(v);
   if (it == f.fi->idx.end() || !f.have[it->second]) { std::string str; raw_string_ostream os(str); v->print(os); die("use of undefined value %s in %s", os.str().c_str(), f.fn->getName().str().c_str()); }
   return f.regs[it->second];
+}
+// ordinary uses resolve guarded multi-target pointers (case split); only the string externals take them raw
+static Val get(State &s, const Value *v)
+{
+  Val x = get_raw(s, v);
+  if (x.multi) return resolve_ptr(s, x);
+  return x;
+}
+static bool takes_multi_ptr(const std::string &n)
+{
+  return n == "snprintf" || n == "sprintf" || n == "strcpy" || n == "strcat" || n == "strlen" || n == "strcmp" || n == "strcasecmp" ||
+         n == "printf" || n == "fprintf" || n == "puts" || n == "fputs" || n == "strncmp" || n == "strncasecmp" || n == "symx_note_str";
 }
 static void set_reg(State &s, const Value *v, const Val &x)
 {
@@ -404,6 +416,11 @@ static bool step_inner(State &s)
       {
         ST.forks++; FORK_SITES[cur_fn(s) + " " + cur_loc(s)]++;
         State s2 = s;
+        if (OPT.false_first)
+        {
+          add_constraint(s2, t); if (mt) s2.model = mt; jump(s2, br->getSuccessor(0)); worklist.push_back(std::move(s2));
+          add_constraint(s, nt); if (mf) s.model = mf; else s.model.reset(); jump(s, br->getSuccessor(1)); return true;
+        }
         add_constraint(s2, nt); if (mf) s2.model = mf; jump(s2, br->getSuccessor(1)); worklist.push_back(std::move(s2));
         add_constraint(s, t); if (!s.model && mt) s.model = mt; jump(s, br->getSuccessor(0)); return true;
       }
@@ -485,7 +502,8 @@ static bool step_inner(State &s)
         Type *t = ci->getArgOperand(i)->getType();
         if (t->isMetadataTy()) { args.push_back(mk_int(1, 0)); continue; }
         if (!(t->isIntegerTy() || t->isPointerTy() || t->isDoubleTy() || t->isFloatTy())) die("call with unsupported arg type in %s", f.fn->getName().str().c_str());
-        args.push_back(get(s, ci->getArgOperand(i)));
+        bool raw = cf && cf->isDeclaration() && !cf->isIntrinsic() && takes_multi_ptr(cf->getName().str());
+        args.push_back(raw ? get_raw(s, ci->getArgOperand(i)) : get(s, ci->getArgOperand(i)));
       }
       if (!cf)
       {
@@ -618,6 +636,7 @@ static void write_json(const std::string &path, const std::string &entry, double
   o << "{\n";
   o << " \"entry\": \"" << jesc(entry) << "\",\n \"status\": " << status << ",\n";
   o << " \"paths\": " << ST.paths << ", \"completed\": " << ST.completed << ", \"infeasible\": " << ST.infeasible << ", \"abandoned_fp\": " << ST.abandoned << ",\n";
+  o << " \"render_classes\": " << OPT.render_classes << ", \"pruned_render_classes\": " << ST.pruned_render << ",\n";
   o << " \"forks\": " << ST.forks << ", \"steps\": " << ST.steps << ", \"queries\": " << ST.queries << ", \"cache_hits\": " << ST.cache_hits << ", \"model_hits\": " << ST.model_hits << ",\n";
   o << " \"asserts_checked\": " << ST.asserts_checked << ", \"solver_s\": " << ST.solver_s << ", \"wall_s\": " << wall << ", \"peak_rss_kb\": " << ru.ru_maxrss << ", \"pending\": " << worklist.size() << ",\n";
   o << " \"inconclusive\": " << (INCONCLUSIVE ? "true" : "false") << ", \"inconclusive_why\": \"" << jesc(INCONCLUSIVE_WHY) << "\",\n";
@@ -666,6 +685,8 @@ int main(int argc, char **argv)
     else if (a == "--inputs") { OPT.inputs_file = next(); OPT.concrete_inputs = true; }
     else if (a == "--seed") OPT.seed = strtoull(next().c_str(), 0, 10);
     else if (a == "--uf-muldiv") OPT.uf_muldiv = true;
+    else if (a == "--false-first") OPT.false_first = true;
+    else if (a == "--render-classes") OPT.render_classes = atoi(next().c_str());
     else if (a == "--samples") OPT.samples = atoi(next().c_str());
     else if (a == "--max-violations") OPT.max_violations = atoi(next().c_str());
     else if (a == "-v") OPT.verbose = true;
